@@ -37,6 +37,10 @@ func init() {
 			out = append(out, scenarioSet{mode: "random", maxExec: n, sc: &Scenario{
 				Name: "st-c08-" + rep, Reporter: rep, Shards: 1, Loop: true, MaxTicks: 1, NoQuiesce: true,
 				Threads: []ThreadSpec{{Name: "a1", Ops: []Op{rinc, rinc}}, {Name: "z1", Ops: []Op{{Op: "rootclose"}}}}}})
+			// C08: a root without an interval, two concurrent Close callers (the close mutex), a recorder
+			out = append(out, scenarioSet{mode: "random", maxExec: n, sc: &Scenario{
+				Name: "st-c08-two-" + rep, Reporter: rep, Shards: 1, NoQuiesce: true, Closer: true,
+				Threads: []ThreadSpec{{Name: "a1", Ops: []Op{rinc}}, {Name: "z1", Ops: []Op{{Op: "rootclose"}}}, {Name: "z2", Ops: []Op{{Op: "rootclose"}}}}}})
 		}
 		return out
 	}
